@@ -296,6 +296,9 @@ class TlSchemas:
                         i += 4
                         result[field] = []
                         for _ in range(length):
+                            if i >= len(data):
+                                # the count is taken from the input: never iterate past the bytes that are actually there
+                                raise TlError(f'vector of {length} items exceeds the data')
                             if subtype in self.base_types:
                                 # (vector int), (vector int256), ...: items are bare base-type values, not objects
                                 deser, j = self.deserialize(data[i:], False, {'item': subtype})
@@ -306,6 +309,8 @@ class TlSchemas:
                                 deser, j = self.deserialize(data[i:], True)
 
                             result[field].append(deser)
+                            if j == 0:
+                                raise TlError('vector item consumed no bytes')
                             i += j
                 else:
                     sch = self.get_by_name(type_)
